@@ -250,7 +250,7 @@ PROPS = {
                    'max_steps in {0,1,3,10,20,50}.',
     ),
     'C12': dict(
-        own_files=['Lemmas/LC12.v', 'Lemmas/LC12b.v', 'Lemmas/LC12c.v', 'Lemmas/LC12d.v', 'Lemmas/LC12e.v', 'Lemmas/LC12f.v', 'Lemmas/LMono.v', 'Props/C12.v'],
+        own_files=['Lemmas/LC12.v', 'Lemmas/LC12b.v', 'Lemmas/LC12c.v', 'Lemmas/LC12d.v', 'Lemmas/LC12e.v', 'Lemmas/LC12f.v', 'Lemmas/LC12g.v', 'Lemmas/LMono.v', 'Props/C12.v'],
         corr=[dict(script='corr_slurry.py', n=60, n_thorough=1500, args=['--parts', 'fracs,getdx,regen'])],
         search='C12.py', budget_quick=400, budget_thorough=20000,
         partial=['get_dx increasing over the whole of (0,1) is proved for every grading with increasing fractions and positive increasing '
@@ -264,7 +264,9 @@ PROPS = {
                    'interior nodes and the input point per remaining interval ++ one top point at most at 0.999; strictly increasing in fraction and '
                    'in diameter; count formula; every remaining input point is a node. For the D15/D50/D85 input with D50 above the limit: 12 or 11 '
                    'nodes, and get_dx returns exactly D15 (interpolated or extrapolated on the same log-linear line), D50 and D85. get_dx rejects '
-                   'fractions outside (0,1) and returns node values at nodes.',
+                   'fractions outside (0,1) and returns node values at nodes; strictly between two tabulated fractions it stays strictly between the two '
+                   'tabulated diameters (C12_get_dx_between_nodes; closed form C12_three_point_between: D15 < d(f) < D50 on (15 %, 50 %), '
+                   'D50 < d(f) < D85 on (50 %, 85 %)).',
         level_note='Hand-written model compared bit for bit (whole dict) with create_fracs on 3-, 4- and 5-point inputs, with get_dx and generate_GSD.',
     ),
     'C15': dict(
